@@ -187,7 +187,7 @@ fn extremes_tdigest(ctx: &mut Ctx, rng: &mut Rng, k: u16, n: usize) {
 }
 
 fn extremes_fi(ctx: &mut Ctx, rng: &mut Rng) {
-    for size in [8usize, 16, 2048] {
+    for size in [1usize, 2, 4, 8, 16, 2048] {
         let mut a: FrequentItemsSketch<i64> = FrequentItemsSketch::new(size);
         let mut b: FrequentItemsSketch<String> = FrequentItemsSketch::new(size);
         let mut c: FrequentItemsSketch<u64> = FrequentItemsSketch::new(size);
@@ -284,6 +284,143 @@ fn extremes_bloom(ctx: &mut Ctx, rng: &mut Rng) {
     ctx.cover("extreme_bloom");
 }
 
+fn cpc_queries(s: &CpcSketch) -> f64 {
+    let mut acc = s.estimate() + s.num_coupons() as f64 + s.is_empty() as u8 as f64;
+    for sd in SDS {
+        acc += s.lower_bound(sd) + s.upper_bound(sd);
+    }
+    acc
+}
+
+/// Every lg_k of the documented range, every estimator path (HIP, coupon, composite after a union), every
+/// standard-deviation level: table-indexed code (interpolation tables per lg_k, relative-error tables with an
+/// lg_k cut-off, ICON coefficients) has one row per lg_k, and a wrong guard shows at exactly one of them.
+fn sweep_hll(ctx: &mut Ctx, rng: &mut Rng, big: bool) {
+    for lg_k in 4u8..=21 {
+        let k = 1u64 << lg_k;
+        let cap = if big { 3_000_000 } else { 150_000 };
+        for t in [HllType::Hll4, HllType::Hll6, HllType::Hll8] {
+            let mut acc = 0.0;
+            for n in [0u64, 1, 7, 8, 9, (k / 8).max(10), (3 * k / 32).max(12), (k / 2).min(cap), (3 * k).min(cap)] {
+                let salt = rng.next_u64();
+                let mut a = HllSketch::new(lg_k, t);
+                let mut b = HllSketch::new((lg_k + (n % 3) as u8).min(21), t);
+                for i in 0..n {
+                    a.update((salt, i));
+                    if i % 2 == 0 {
+                        b.update((salt, i + n / 2));
+                    }
+                }
+                acc += hll_queries(&a);
+                let d = own!(ctx, HllSketch::deserialize(&a.serialize()), "HLL");
+                acc += hll_queries(&d);
+                let mut u = HllUnion::new(lg_k);
+                u.update(&a);
+                u.update(&b);
+                acc += u.estimate();
+                for sd in SDS {
+                    acc += u.lower_bound(sd) + u.upper_bound(sd);
+                }
+                for t2 in [HllType::Hll4, HllType::Hll6, HllType::Hll8] {
+                    let r = u.to_sketch(t2);
+                    acc += hll_queries(&r);
+                    let rd = own!(ctx, HllSketch::deserialize(&r.serialize()), "HLL union result");
+                    acc += hll_queries(&rd);
+                }
+                ctx.evals(1);
+            }
+            std::hint::black_box(acc);
+        }
+        ctx.cover(&format!("sweep_hll_lg_k_{:02}", lg_k));
+    }
+}
+
+fn sweep_cpc(ctx: &mut Ctx, rng: &mut Rng, big: bool) {
+    for lg_k in 4u8..=26 {
+        let k = 1u64 << lg_k;
+        let cap: u64 = if big { 1_500_000 } else { 120_000 };
+        let mut acc = 0.0;
+        for c in [0u64, 1, (k / 16).max(2), k / 2 + 3, 2 * k, 4 * k] {
+            let c = c.min(cap).min(cm::max_coupons_in_envelope(lg_k));
+            let mut a = CpcSketch::new(lg_k);
+            let mut b = CpcSketch::new(lg_k);
+            for rc in cm::natural_order(rng, lg_k, c) {
+                a.verif_row_col_update(rc);
+            }
+            for i in 0..c.min(3000) {
+                b.update((c, i));
+            }
+            acc += cpc_queries(&a);
+            let img = a.serialize();
+            let d = own!(ctx, CpcSketch::deserialize(&img), "CPC");
+            acc += cpc_queries(&d);
+            let w = own!(ctx, CpcWrapper::new(&img), "CpcWrapper");
+            acc += w.estimate();
+            for sd in SDS {
+                acc += w.lower_bound(sd) + w.upper_bound(sd);
+            }
+            // the merged (ICON) path
+            let mut u = CpcUnion::new(lg_k);
+            u.update(&a);
+            u.update(&b);
+            let r = u.to_sketch();
+            acc += cpc_queries(&r);
+            let rimg = r.serialize();
+            let rd = own!(ctx, CpcSketch::deserialize(&rimg), "CPC union result");
+            acc += cpc_queries(&rd);
+            let rw = own!(ctx, CpcWrapper::new(&rimg), "CpcWrapper on a union result");
+            acc += rw.estimate();
+            for sd in SDS {
+                acc += rw.lower_bound(sd) + rw.upper_bound(sd);
+            }
+            ctx.evals(1);
+        }
+        let _ = CpcSketch::max_serialized_bytes(lg_k);
+        std::hint::black_box(acc);
+        ctx.cover(&format!("sweep_cpc_lg_k_{:02}", lg_k));
+    }
+}
+
+fn sweep_theta(ctx: &mut Ctx, rng: &mut Rng, big: bool) {
+    for lg_k in 5u8..=26 {
+        let k = 1u64 << lg_k;
+        let cap: u64 = if big { 2_000_000 } else { 100_000 };
+        let mut acc = 0.0;
+        for (j, n) in [0u64, 1, k - 1, k, k + 1, 2 * k, 5 * k].into_iter().enumerate() {
+            let n = n.min(cap);
+            let rf = if lg_k <= 16 { [ResizeFactor::X1, ResizeFactor::X2, ResizeFactor::X4, ResizeFactor::X8][j % 4] } else { ResizeFactor::X8 };
+            let p = [1.0f32, 1.0, 0.5, 1.0, 0.01, 1.0, 1.0][j];
+            let mut s = ThetaSketch::builder().lg_k(lg_k).resize_factor(rf).sampling_probability(p).build();
+            let salt = rng.next_u64();
+            for i in 0..n {
+                s.update((salt, i));
+            }
+            for round in 0..2 {
+                for sd in SDS {
+                    acc += s.lower_bound(sd) + s.upper_bound(sd);
+                }
+                acc += s.estimate() + s.num_retained() as f64;
+                let c = s.compact(j % 2 == 0);
+                for sd in SDS {
+                    acc += c.lower_bound(sd) + c.upper_bound(sd);
+                }
+                let c3 = own!(ctx, CompactThetaSketch::deserialize(&c.serialize()), "theta v3");
+                let c4 = own!(ctx, CompactThetaSketch::deserialize(&c.serialize_compressed()), "theta v4");
+                acc += c3.estimate() + c4.estimate() + c4.upper_bound(NumStdDev::Two);
+                // trim at exactly k, below k and above k retained entries; twice in a row
+                s.trim();
+                s.trim();
+                if round == 0 {
+                    s.update((salt, n + 1));
+                }
+            }
+            ctx.evals(1);
+        }
+        std::hint::black_box(acc);
+        ctx.cover(&format!("sweep_theta_lg_k_{:02}", lg_k));
+    }
+}
+
 fn extremes_case(ctx: &mut Ctx, case: &Json) {
     let mut rng = Rng::new(case.u64("seed").unwrap_or(0));
     let what = case.str("what").unwrap_or("");
@@ -331,6 +468,9 @@ fn extremes_case(ctx: &mut Ctx, case: &Json) {
             ctx.cover("extreme_countmin");
         }
         "bloom" => extremes_bloom(ctx, &mut rng),
+        "sweep-hll" => sweep_hll(ctx, &mut rng, big),
+        "sweep-cpc" => sweep_cpc(ctx, &mut rng, big),
+        "sweep-theta" => sweep_theta(ctx, &mut rng, big),
         other => ctx.inconclusive(format!("C17: unknown extremes lane {:?}", other)),
     }
     let mut fp = Fp::new();
@@ -339,7 +479,7 @@ fn extremes_case(ctx: &mut Ctx, case: &Json) {
     ctx.end_case(fp.get(), true);
 }
 
-pub const EXTREMES: [&str; 7] = ["hll", "cpc", "theta", "tdigest", "frequent", "countmin", "bloom"];
+pub const EXTREMES: [&str; 10] = ["hll", "cpc", "theta", "tdigest", "frequent", "countmin", "bloom", "sweep-hll", "sweep-cpc", "sweep-theta"];
 
 /// C17 asks one thing of the borrowed monitors: that nothing panics. Their other clauses belong to their own
 /// properties (and are judged there, with their own known findings); only panic violations are kept here.
@@ -410,7 +550,10 @@ pub fn run(ctx: &mut Ctx) {
              C06 CPC unions, C07 frequent items, C08 Count-Min in all counter types, C09 Bloom, C10/C15 t-digest incl. \
              empty split lists) or an 'extremes' program at the documented limits (HLL lg_k 4/21, CPC lg_k 4/21/26 incl. \
              windowed sketches at lg_k 21, theta lg_k 5/20, t-digest k = 10 .. 65535, Frequent Items size 8 with weights to \
-             2^40, Count-Min 1x3 in all 8 types with totals at the type's maximum, Bloom 1 bit), executed in the dbg \
+             2^40, Count-Min 1x3 in all 8 types with totals at the type's maximum, Bloom 1 bit) or a 'sweep' program (every \
+             lg_k of the documented range of HLL 4..21, CPC 4..26 and theta 5..26 at several fill levels: all queries at \
+             all three standard deviations on streamed, deserialized and united sketches, wrappers and compact forms, \
+             trim at exactly k retained entries), executed in the dbg \
              (debug-assertions + overflow-checks) and the rel profile; any panic is a violation, and the monitors' own \
              invariants stay armed. distinct = fingerprint per program; non-trivial = the program performed updates"
                 .into(),
